@@ -445,6 +445,12 @@ func scanValues(u *Universe) []V {
 		}
 		return append(vals, AStr(""), AStr("\xff"), AStr("\xff\xff"), ABool(true))
 	}
+	if u.NumTable == "extremes" {
+		// the ends of int64 and uint64, as far apart as float64 keeps them apart (keys follow the order wherever
+		// two numbers differ as float64)
+		return []V{ANil(), ANum(0, "i"), ANum(3, "i"), ANum(4, "i"), ANum(5, "i"), ANum(5, "u"), ANum(7, "u"), ANum(8, "i"),
+			ANum(12, "u"), ANum(15, "u"), AStr(""), AStr("a"), ABool(false), ATime(0, 0)}
+	}
 	if u.TimeTable == "far1970" {
 		vals := []V{ANil(), ANum(8, "i"), AStr("a"), ABool(true)}
 		for ord := range u.times {
@@ -474,6 +480,9 @@ func auxScan(r *rand.Rand, n int, emit func(E), stats map[string]int) {
 		}
 		if it%4 == 2 {
 			u = NewUniverse("general", "far1970") // instants around and beyond what 64 bits of nanoseconds hold
+		}
+		if it%8 == 6 {
+			u = NewUniverse("extremes", "general")
 		}
 		vals := scanValues(u)
 		bounds := []V{V{"nobound"}} // a nil bound *is* the open end (or, when included, the value nil)
